@@ -438,7 +438,7 @@ def generated_path(ctx, rid):
                "empty path: unreachable for struct/enum (W3), diverges", "arms: " + str(list(arms)))
     gen = arms.get("_")
     exp = ("T[#0](mut[Iterator::collect(Iterator::map(P%d.segments,|1|{From::from(format_ident(F[{__private::IdentFragmentAdapter(C1_0)}]))}));"
-           ".Punctuated::insert('0',From::from(P%d)) if P%d.segments~_])") % (i_path, i_root, i_path)
+           ".Punctuated::insert('0',From::from(P%d))])") % (i_path, i_root)
     if gen is None:
         ctx.bad(rid, "generated-path/multi", fn["sp"], "no arm for multi-segment paths")
     else:
